@@ -405,6 +405,15 @@ theorem atomicity_of_table_programs (fuel gas : Nat) (p : List (Prog N)) (v : Vi
     ((runTx fuel gas p v).1 = .ok → (runTx fuel gas p v).2.1 = (spec fuel false gas p v).2.1) :=
   atomicity fuel gas p v (fromTable_clean h)
 
+/-- … and for a direct call of any real method by an externally owned account -/
+theorem direct_call_of_table_method_atomic (fuel gas : Nat) (xfer : Option (N → N)) (req : Nat) (rf : RunFacts)
+    (hrf : rf ∈ runFacts) (out : N → N) (inner : List (Nat × List (Prog N))) (act : ActionX N) (v : View N)
+    (hinner : ∀ x ∈ inner, FromTable x.2) :
+    (runTxPre fuel gas xfer req (shapeOf rf) out inner act v).1 ≠ .ok →
+    (runTxPre fuel gas xfer req (shapeOf rf) out inner act v).2.1 = v :=
+  (direct_call_atomic fuel gas xfer req (shapeOf rf) out inner act v (List.all_eq_true.mp table_shapes_clean rf hrf)
+    (fun x hx => fromTable_clean (hinner x hx))).2
+
 -- non-vacuity
 example : (methods.filter (fun m => !m.readonly)).length ≥ 12 := by decide
 example : methods.length ≥ 20 := by decide
